@@ -307,6 +307,13 @@ module Coq_Pos =
     | XO p -> XO (mul p y)
     | XH -> y
 
+  (** val iter : ('a1 -> 'a1) -> 'a1 -> positive -> 'a1 **)
+
+  let rec iter f x = function
+  | XI n' -> f (iter f (iter f x n') n')
+  | XO n' -> iter f (iter f x n') n'
+  | XH -> f x
+
   (** val compare_cont : comparison -> positive -> positive -> comparison **)
 
   let rec compare_cont r x y =
@@ -642,6 +649,18 @@ module Z =
        | Zpos y' -> Zneg (Coq_Pos.mul x' y')
        | Zneg y' -> Zpos (Coq_Pos.mul x' y'))
 
+  (** val pow_pos : z -> positive -> z **)
+
+  let pow_pos z0 =
+    Coq_Pos.iter (mul z0) (Zpos XH)
+
+  (** val pow : z -> z -> z **)
+
+  let pow x = function
+  | Z0 -> Zpos XH
+  | Zpos p -> pow_pos x p
+  | Zneg _ -> Z0
+
   (** val compare : z -> z -> comparison **)
 
   let compare x y =
@@ -657,6 +676,13 @@ module Z =
       (match y with
        | Zneg y' -> compOpp (Coq_Pos.compare x' y')
        | _ -> Lt)
+
+  (** val leb : z -> z -> bool **)
+
+  let leb x y =
+    match compare x y with
+    | Gt -> false
+    | _ -> true
 
   (** val ltb : z -> z -> bool **)
 
@@ -692,6 +718,12 @@ module Z =
     match compare n0 m with
     | Gt -> m
     | _ -> n0
+
+  (** val abs : z -> z **)
+
+  let abs = function
+  | Zneg p -> Zpos p
+  | x -> x
 
   (** val of_N : n -> z **)
 
@@ -3993,6 +4025,113 @@ let apply_fun k args =
                   | [] -> Some (EAbs a)
                   | _ :: _ -> None))
 
+(** val int_lit : char list -> bool **)
+
+let int_lit s = match s with
+| [] -> false
+| c::r ->
+  if (=) c '-'
+  then (&&) (Nat.leb (S O) (length0 r)) (Nat.eqb (lit_digits r) (length0 r))
+  else Nat.eqb (lit_digits s) (length0 s)
+
+(** val digits_Z : z -> char list -> z **)
+
+let rec digits_Z acc = function
+| [] -> acc
+| c::r ->
+  if is_digit c
+  then digits_Z
+         (Z.add (Z.mul acc (Zpos (XO (XI (XO XH)))))
+           (Z.sub (Z.of_N (n_of_ascii c)) (Zpos (XO (XO (XO (XO (XI XH))))))))
+         r
+  else digits_Z acc r
+
+(** val int_val : char list -> z **)
+
+let int_val s = match s with
+| [] -> Z0
+| c::r -> if (=) c '-' then Z.opp (digits_Z Z0 r) else digits_Z Z0 s
+
+(** val int_text : z -> char list **)
+
+let int_text =
+  string_of_Z
+
+(** val small_int : z -> bool **)
+
+let small_int z0 =
+  Z.leb (Z.abs z0) (Z.pow (Zpos (XO XH)) (Zpos (XI (XO (XI (XO (XI XH)))))))
+
+(** val fold2 : (z -> z -> z) -> char list -> char list -> sexpr -> sexpr **)
+
+let fold2 f a b dflt =
+  if (&&) ((&&) (int_lit a) (int_lit b))
+       (small_int (f (int_val a) (int_val b)))
+  then ENum (int_text (f (int_val a) (int_val b)))
+  else dflt
+
+(** val fold_ints : sexpr -> sexpr **)
+
+let rec fold_ints e = match e with
+| ENeg a ->
+  (match fold_ints a with
+   | ENum s ->
+     if int_lit s then ENum (int_text (Z.opp (int_val s))) else ENeg (ENum s)
+   | x -> ENeg x)
+| EAbs a ->
+  (match fold_ints a with
+   | ENum s ->
+     if int_lit s then ENum (int_text (Z.abs (int_val s))) else EAbs (ENum s)
+   | x -> EAbs x)
+| EBin (o, a, b) ->
+  (match o with
+   | OAdd ->
+     (match fold_ints a with
+      | ENum x ->
+        let a' = ENum x in
+        (match fold_ints b with
+         | ENum y -> fold2 Z.add x y (EBin (o, (ENum x), (ENum y)))
+         | x0 -> EBin (o, a', x0))
+      | x -> EBin (o, x, (fold_ints b)))
+   | OSub ->
+     (match fold_ints a with
+      | ENum x ->
+        let a' = ENum x in
+        (match fold_ints b with
+         | ENum y -> fold2 Z.sub x y (EBin (o, (ENum x), (ENum y)))
+         | x0 -> EBin (o, a', x0))
+      | x -> EBin (o, x, (fold_ints b)))
+   | OMul ->
+     (match fold_ints a with
+      | ENum x ->
+        let a' = ENum x in
+        (match fold_ints b with
+         | ENum y -> fold2 Z.mul x y (EBin (o, (ENum x), (ENum y)))
+         | x0 -> EBin (o, a', x0))
+      | x -> EBin (o, x, (fold_ints b)))
+   | _ -> EBin (o, (fold_ints a), (fold_ints b)))
+| EMax (a, b) ->
+  (match fold_ints a with
+   | ENum x ->
+     let a' = ENum x in
+     (match fold_ints b with
+      | ENum y -> fold2 Z.max x y (EMax ((ENum x), (ENum y)))
+      | x0 -> EMax (a', x0))
+   | x -> EMax (x, (fold_ints b)))
+| EMin (a, b) ->
+  (match fold_ints a with
+   | ENum x ->
+     let a' = ENum x in
+     (match fold_ints b with
+      | ENum y -> fold2 Z.min x y (EMin ((ENum x), (ENum y)))
+      | x0 -> EMin (a', x0))
+   | x -> EMin (x, (fold_ints b)))
+| EIf (o, l, r, a, b) ->
+  EIf (o, (fold_ints l), (fold_ints r), (fold_ints a), (fold_ints b))
+| ECall1 (g, a) -> ECall1 (g, (fold_ints a))
+| ECall2 (g, a, b) -> ECall2 (g, (fold_ints a), (fold_ints b))
+| _ -> e
+
 (** val p_expr :
     (char list -> nat option) -> nat -> ctok list -> (sexpr * ctok list)
     option **)
@@ -4168,7 +4307,7 @@ let stmt_of_tokens row = function
                | Some p ->
                  let (e, l0) = p in
                  (match l0 with
-                  | [] -> Some (y, (SAssign (i, k0, e)))
+                  | [] -> Some (y, (SAssign (i, k0, (fold_ints e))))
                   | _ :: _ -> None)
                | None -> None)
             | None -> None)
